@@ -18,6 +18,7 @@ import common as C  # noqa: E402
 
 FAMILY = {
     "C01": "cast", "C02": "cast", "C03": "cast", "C07": "cast", "C11": "cast+alloc", "C14": "cast",
+    "C17": "tables:contig", "C04": "tables:census",
     "C09": "alloc", "C10": "alloc", "C12": "alloc", "C13": "alloc", "C15": "alloc", "C16": "alloc",
 }
 
@@ -157,6 +158,18 @@ def check(prop, tier, seed):
                          "live-block table, injected allocation failure, panicking destructors, seeded Rc/Arc handle histories); "
                          "one evaluation = one call sequence on the real crate, its observation vector compared with the "
                          "extracted model and checked by the monitor; distinct = distinct (case, observation) pairs")
+        if fam.startswith("tables"):
+            import fam_tables
+            which = tuple(fam.split(":")[1].split("+"))
+            res = fam_tables.transcripts(tier, seed, which)
+            m, c, st = fam_tables.findings(res, prop)
+            mons += m; corrs += c; herr += list(st["harness_errors"]); notes += st.get("notes", [])
+            evals += st["evaluations"]; distinct += len(st["distinct"]); samples += st["samples"]
+            dist["tables_by_function"] = dict(st["by_fn"]); dist["tables_transcripts_cached"] = res.get("cached", False)
+            rules.append("table harnesses (%s): built-in Contiguous impls probed with every value of 8/16-bit integer types and the "
+                         "boundaries/extremes of wider ones, derived enums against default-method twins; trait census over the closed "
+                         "type universe per feature configuration; one evaluation = one probe of the real crate compared with the "
+                         "model over the REGENERATED tables and checked by the monitor; distinct = distinct transcript lines" % ", ".join(which))
         stats = {"evaluations": evals, "distinct_nontrivial": distinct, "rule": " || ".join(rules), "samples": samples,
                  "distribution": dist}
         if notes:
